@@ -49,3 +49,25 @@
 (declare-fun json.proofDocOf (Int) (Array Int Int))
 (declare-fun json.errDoc (Str Str) (Array Int Int))
 (declare-fun errs.message (Int) Str)
+
+; ---- stream items of the proving-system file (C11, C15) ----
+(declare-fun tok.pk (Int Int) Int)
+(declare-fun tok.vk (Int Int) Int)
+(declare-fun tok.cs (Int) Int)
+(define-fun tok.isByte ((t Int)) Bool (and (<= 0 t) (< t 256)))
+(always-reveal tok.isByte)
+; sections are not bytes and are pairwise distinct kinds; the constructors are injective in the value
+(axiom tok_kinds
+  (forall ((v Int) (f Int) (w Int) (g Int))
+    (! (and (not (tok.isByte (tok.pk v f))) (not (tok.isByte (tok.vk v f))) (not (tok.isByte (tok.cs v)))
+            (not (= (tok.pk v f) (tok.vk w g))) (not (= (tok.pk v f) (tok.cs w))) (not (= (tok.vk v f) (tok.cs w))))
+       :pattern ((tok.pk v f) (tok.vk w g)))))
+(axiom tok_inj
+  (forall ((v Int) (f Int) (w Int) (g Int))
+    (and (=> (= (tok.pk v f) (tok.pk w g)) (= v w)) (=> (= (tok.vk v f) (tok.vk w g)) (= v w)))))
+(axiom tok_cs_inj (forall ((v Int) (w Int)) (=> (= (tok.cs v) (tok.cs w)) (= v w))))
+(declare-fun os.fileToks (Str) (Array Int Int))
+(declare-fun os.fileLen (Str) Int)
+(declare-fun cli.flagStr (Int Str) Str)
+(declare-fun cli.flagInt (Int Str) Int)
+(declare-fun cli.flagBool (Int Str) Bool)
